@@ -5,6 +5,7 @@ CONSTANTS
   CheckPeriod = 5
   SendsPerSec = 15
   Slack = 1
+  MaxFlight = 0
   D = 0
 INIT Init
 NEXT Next
@@ -25,5 +26,6 @@ PROPERTY SilentWires
 PROPERTY NeverDropsLive
 PROPERTY NoSpuriousWithdrawal
 PROPERTY ConfigConstant
+PROPERTY LateNeverResurrects
 INVARIANT HoldDownEnds
 CHECK_DEADLOCK FALSE
